@@ -114,6 +114,13 @@ def sdslidx(name, unit, ufunc, kt, n, eps=1, epsrec=1, tiers=Q, timeout=1800, me
                        'malloc/realloc; memory_monitor::record stubbed, huge-page paths asserted unreachable, log2 modelled to 16 fractional bits' % (n, kt, eps, epsrec))
 
 
+def dynframe(name, fmode, nops, kmax=5, vmax=3, idxl=10, tiers=Q, timeout=1200):
+    d = dict(FMODE=fmode, NOPS=nops, KMAX=kmax, VMAX=vmax, BASE=2, BUFL=1, IDXL=idxl, EPS=1, EPSREC=1, VERIF_VEC_CAP=10, VERIF_VECVEC_CAP=36, VERIF_SET_CAP=kmax + 2)
+    return dict(name=name, unit='dyn_frame.cpp', harness='h_dyn_frame.c', defs=d, narrow=16, timeout=timeout, tiers=tiers,
+                bounds='frame condition for DynamicPGMIndex %s after every history of %d updates over keys 0..%d (base 2, buffer_level 1, index_level %d)'
+                       % (['find/count/lower_bound', 'begin()..end() traversal'][fmode], nops, kmax, idxl))
+
+
 JOBS = {}
 JOBS['C01'] = [
     e2e('e2e_u8_n1_e1_r1', 'uint8_t', 1, 1, 1),
@@ -156,6 +163,7 @@ EF_PROBE = [sdslidx('ef_u16_n1', 'eliasfano.cpp', 'u_eliasfano', 'uint16_t', 1, 
 JOBS['C02'] = JOBS['C01'] + [j_ for j_ in JOBS['C03'] if j_['name'] == 'mkseg_n3_e1_chunk02']
 JOBS['C07'] = [e2e('e2e_u8_n3_e1_r1', 'uint8_t', 3, 1, 1), e2e('e2e_i8_n2_e1_r1', 'int8_t', 2, 1, 1), e2e('e2e_u8_n4_e1_r1', 'uint8_t', 4, 1, 1, tiers=T, timeout=3000)]
 JOBS['C16'] = [e2e('frame_u8_n2_e1_r1', 'uint8_t', 2, 1, 1, extra=dict(WITH_FRAME=1)), e2e('frame_u8_n3_e1_r0', 'uint8_t', 3, 1, 0, extra=dict(WITH_FRAME=1))]
+JOBS['C16'] += [dynframe('dynframe_q_o2', 0, 2), dynframe('dynframe_it_o2', 1, 2, tiers=T, timeout=3000)]
 JOBS['C20'] = [e2e('reject_u8_n%d' % n, 'uint8_t', n, 1, 1, extra=dict(ALLOW_SENTINEL=1)) for n in (1, 2)] + \
               [e2e('reject_i8_n2', 'int8_t', 2, 1, 0, extra=dict(ALLOW_SENTINEL=1))]
 JOBS['C20'] += [pla('pla_reject_k3_e1', 3, epsfix=1, ymax=6, maximality=False, reject=True)]
@@ -198,7 +206,7 @@ PROPS = {
                 explanation='Real constructor and contains(p) for every stored multiset and every query point in bounds.'),
     'C15': dict(level='model_checking', outside=['histories longer than NOPS', 'default buffer_level'], assumptions=MODEL,
                 explanation='After every history of NOPS updates the accessor hook reads the private levels: sorted, within capacity, nothing beyond used_levels, index present over exactly the level keys / reset.'),
-    'C16': dict(level='other', outside=['no thread schedule is explored (this family cannot)', 'only PGMIndex::search is covered'], assumptions=MODEL,
+    'C16': dict(level='other', outside=['no thread schedule is explored (this family cannot)', 'covered: PGMIndex::search and DynamicPGMIndex find/count/lower_bound (traversal in the thorough tier); the other classes are not'], assumptions=MODEL,
                 explanation='Frame condition: a data race needs a write. The wrapper snapshots every byte the index owns, runs search() twice and asserts bit-identity and equal results for all inputs in bounds; '
                             'no write to shared state on any input means no schedule of readers has a race and each call returns what it returns alone.'),
     'C18': dict(level='model_checking', outside=['n > 3', 'key spread > 200 around the symbolic base', 'the dynamic_pgm_index_* functions'], assumptions=MODEL,
